@@ -145,6 +145,10 @@ theorem canon_keyHash {a : Val} (hw : WF a) (ht : typeOf a = .keyHash) : ∃ s, 
   cases a <;> simp [typeOf] at ht <;> first | (subst ht; exact ⟨_, rfl⟩) | canon_rest
 theorem canon_key {a : Val} (hw : WF a) (ht : typeOf a = .key) : ∃ s, a = .atom .key s := by
   cases a <;> simp [typeOf] at ht <;> first | (subst ht; exact ⟨_, rfl⟩) | canon_rest
+theorem canon_contract {a : Val} {t : Ty} (hw : WF a) (ht : typeOf a = .contract t) : ∃ s, a = .contract t s := by
+  cases a <;> simp [typeOf] at ht <;> first | (subst ht; exact ⟨_, rfl⟩) | canon_rest
+theorem canon_address {a : Val} (hw : WF a) (ht : typeOf a = .address) : ∃ s, a = .atom .address s := by
+  cases a <;> simp [typeOf] at ht <;> first | (subst ht; exact ⟨_, rfl⟩) | canon_rest
 /-- there is no well-formed value of type `never` -/
 theorem no_never {a : Val} (hw : WF a) (ht : typeOf a = .never) : False := by
   cases a <;> simp [typeOf] at ht <;> canon_rest
@@ -173,6 +177,39 @@ theorem unV_safe (env : Env) (i : Instr) (a : Val) (t : Ty) (hwa : WF a) (_ : li
     cases ta <;> first | (simp [unTy, hashKeyTy] at h; done) | skip
     obtain ⟨s, rfl⟩ := canon_key hwa hta
     simp [Spec.unV, Spec.hashKeyV]
+  · -- ADDRESS
+    cases ta <;> first | (simp [unTy, addressTy] at h; done) | skip
+    obtain ⟨s, rfl⟩ := canon_contract hwa hta
+    simp [Spec.unV, Spec.addressV]
+  · -- IMPLICIT_ACCOUNT
+    cases ta <;> first | (simp [unTy, implicitAccountTy] at h; done) | skip
+    obtain ⟨s, rfl⟩ := canon_keyHash hwa hta
+    simp [Spec.unV, Spec.implicitAccountV, litOk]
+  · -- CONTRACT
+    cases ta <;> first | (simp [unTy, contractTy] at h; done) | skip
+    obtain ⟨s, rfl⟩ := canon_address hwa hta
+    simp only [Spec.unV, Spec.contractV]
+    split
+    · simp
+    · split
+      · split <;> simp [litOk]
+      · simp [litOk]
+  · -- SET_DELEGATE
+    cases ta <;> first | (simp [unTy, setDelegateTy] at h; done) | skip
+    rename_i tk
+    cases tk <;> first | (simp [unTy, setDelegateTy] at h; done) | skip
+    rcases canon_option hwa hta with rfl | ⟨x, rfl, hx, hxt⟩
+    · simp [Spec.unV, Spec.setDelegateV, litOk]
+    · obtain ⟨s, rfl⟩ := canon_keyHash hx hxt
+      simp [Spec.unV, Spec.setDelegateV, litOk]
+  · -- EMIT
+    rename_i tag t'
+    simp only [unTy, emitTy] at h
+    split at h
+    · rename_i he
+      subst he
+      simp [Spec.unV, Spec.emitV, hta, litOk]
+    · simp at h
 
 section
 variable (env : Env) (st : List Val) (tr : TRes) (hw : StackWF st) (hg : GoodStack st)
@@ -195,6 +232,33 @@ theorem safe_unop (i : Instr) (f : Val → Res Val) (tf : Ty → Option Ty)
   | some t =>
     rw [hs]
     exact (hf a t hw.1 hg.1 htf).bind fun r _ hr => by simp [goodStack_cons, hr, hg.2]
+
+theorem safe_TRANSFER_TOKENS (hty : Typing.step .TRANSFER_TOKENS (st.map typeOf) = some tr) :
+    (Spec.step env .TRANSFER_TOKENS st).Safe GoodStack := by
+  rcases st with _ | ⟨a, _ | ⟨b, _ | ⟨c, st⟩⟩⟩
+  · simp [Typing.step] at hty
+  · simp [Typing.step] at hty
+  · simp [Typing.step] at hty
+  rw [stackWF_cons, stackWF_cons, stackWF_cons] at hw
+  rw [goodStack_cons, goodStack_cons, goodStack_cons] at hg
+  have ht : Typing.step .TRANSFER_TOKENS ((a :: b :: c :: st).map typeOf)
+      = (transferTokensTy (typeOf a) (typeOf b) (typeOf c)).map fun t => .ok (t :: st.map typeOf) := rfl
+  rw [ht] at hty
+  generalize htb : typeOf b = tb at hty
+  generalize htc : typeOf c = tc at hty
+  cases tb <;> first | (simp [transferTokensTy] at hty; done) | skip
+  cases tc <;> first | (simp [transferTokensTy] at hty; done) | skip
+  rename_i t
+  simp only [transferTokensTy] at hty
+  split at hty
+  · rename_i hpt
+    obtain ⟨m, rfl, _⟩ := canon_mutez hw.2.1 htb
+    obtain ⟨s, rfl⟩ := canon_contract hw.2.2.1 htc
+    have hs : Spec.step env .TRANSFER_TOKENS (a :: Val.num .mutez m :: Val.contract t s :: st)
+        = (Spec.transferTokensV env a (.num .mutez m) (.contract t s)).bind fun r => .ok (r :: st) := rfl
+    rw [hs]
+    simp [Spec.transferTokensV, hpt, goodStack_cons, litOk, hg.2.2.2]
+  · simp at hty
 
 /-- NEVER is typed on a stack whose top has type `never`: there is no such stack of well-formed values -/
 theorem safe_NEVER (hty : Typing.step .NEVER (st.map typeOf) = some tr) : (Spec.step env .NEVER st).Safe GoodStack := by
@@ -301,5 +365,22 @@ theorem step_safe (env : Env) (i : Instr) (st : List Val) (tr : TRes) (hw : Stac
   case HASH_KEY =>
     exact safe_unop env st tr hw hg .HASH_KEY (Spec.unV env .HASH_KEY) (unTy .HASH_KEY) (fun _ _ => rfl) rfl
       (fun _ _ => rfl) (unV_safe env .HASH_KEY) hty
+  case ADDRESS =>
+    exact safe_unop env st tr hw hg .ADDRESS (Spec.unV env .ADDRESS) (unTy .ADDRESS) (fun _ _ => rfl) rfl
+      (fun _ _ => rfl) (unV_safe env .ADDRESS) hty
+  case IMPLICIT_ACCOUNT =>
+    exact safe_unop env st tr hw hg .IMPLICIT_ACCOUNT (Spec.unV env .IMPLICIT_ACCOUNT) (unTy .IMPLICIT_ACCOUNT) (fun _ _ => rfl) rfl
+      (fun _ _ => rfl) (unV_safe env .IMPLICIT_ACCOUNT) hty
+  case CONTRACT t ep =>
+    exact safe_unop env st tr hw hg (.CONTRACT t ep) (Spec.unV env (.CONTRACT t ep)) (unTy (.CONTRACT t ep)) (fun _ _ => rfl) rfl
+      (fun _ _ => rfl) (unV_safe env (.CONTRACT t ep)) hty
+  case SET_DELEGATE =>
+    exact safe_unop env st tr hw hg .SET_DELEGATE (Spec.unV env .SET_DELEGATE) (unTy .SET_DELEGATE) (fun _ _ => rfl) rfl
+      (fun _ _ => rfl) (unV_safe env .SET_DELEGATE) hty
+  case EMIT tag t =>
+    exact safe_unop env st tr hw hg (.EMIT tag t) (Spec.unV env (.EMIT tag t)) (unTy (.EMIT tag t)) (fun _ _ => rfl) rfl
+      (fun _ _ => rfl) (unV_safe env (.EMIT tag t)) hty
+  case SELF ep t => simp [Spec.step, goodStack_cons, litOk, hg]
+  case TRANSFER_TOKENS => exact safe_TRANSFER_TOKENS env st tr hw hg hty
 
 end Interp
